@@ -1,7 +1,10 @@
 use std::{marker::PhantomData, sync::Arc};
 
 use log::info;
+#[cfg(not(feature = "verif"))]
 use parking_lot::RwLock;
+#[cfg(feature = "verif")]
+use rawdb::verif::sync::RwLock;
 use rawdb::{Reader, likely, unlikely};
 
 mod any_stored_vec;
